@@ -441,6 +441,10 @@ def run(tier, seed):
     # 1. design: the algorithm machine
     res = tlc.run("MC_C05_algo", cfg="MC_C05_algo_T" if thorough else "MC_C05_algo", deadlock=True, timeout=3000)
     ev.tlc("MC_C05_algo", res, "greedy+phase machine; Valid, BergeInv, DoneMax, no deadlock before Finish")
+    # vertex sets too large to enumerate every graph: random graphs (seeded), every resolution of the nondeterminism
+    res = tlc.run("MC_C05_algo", cfg="MC_C05_algo_S_T" if thorough else "MC_C05_algo_S", deadlock=True, timeout=3000, want=(),
+                  extra=["-seed", str(1000 + seed)])
+    ev.tlc("MC_C05_algo_S", res, "the same machine on sampled 5x5 (thorough 6x6) graphs; Valid, BergeInv, DoneMax, no deadlock before Finish")
 
     # 2. all bipartite graphs
     res = tlc.run("MC_C05_graphs", cfg="MC_C05_graphs_T" if thorough else "MC_C05_graphs", timeout=3400, heap="8g")
